@@ -40,7 +40,7 @@ def run(prop, tier):
         for c in tlc_cases(r.out):
             if not any(h['op'] in ('SumHash', 'ComputeHash') for h in c['hist']):
                 continue
-            jobs.append({'kind': 'history', 'case': {'id': 'h-%d' % len(jobs), 'class': cls, 'rate': rate, 'seed': seed * 1000003 + len(jobs),
+            jobs.append({'kind': 'history', 'case': {'id': 'h-%d' % len(jobs), 'class': cls, 'rate': rate, 'seed': vlib.jseed(seed, len(jobs)),
                                                      'hist': c['hist']}})
     nhist = len(jobs)
     r = vlib.tlc(SPEC, 'KmacPad', vlib.cfg({'MaxKey': 1200, 'Fixed': True}, invariants=['Holds', 'Emit']), name='kpad')
